@@ -96,6 +96,41 @@ def compare(exp, obs, res, recipe, r):
         res.violation("exit-vs-summary", f"exit status {r.exit_code} disagrees with summary.compliant={obs['compliant']}", recipe=recipe)
 
 
+def add_extras(case, recipe, root, exp, res):
+    """Compliant extras that need a specific layout to go wrong: Git-ignored files next to covered ones in an untracked
+    directory, and nested closest REUSE.toml files that split copyright and licensing between them."""
+    provided = [x["id"] for x in recipe["licenses"] if x["id"] in exp["used_licenses"] and x["id"] in trees.spdx_lists()["all"]
+                and not trees.spdx_lists()["all"][x["id"]] and not x.get("noext")]
+    if not provided:
+        return
+    lid = provided[0]
+    hdr = f"# SPDX-FileCopyrightText: 2004 Extra Holder\n# SPDX-License-Identifier: {lid}\n"
+    if case["git"]:
+        (root / ".gitignore").write_text(hdr + "*.log\nbuild/\n")
+        (root / "newmod").mkdir(exist_ok=True)
+        (root / "newmod" / "util.py").write_text(hdr + "x = 1\n")
+        (root / "newmod" / "cache.log").write_text("ignored, no header\n")
+        (root / "newmod" / "deep").mkdir(exist_ok=True)
+        (root / "newmod" / "deep" / "more.log").write_text("ignored\n")
+        (root / "newmod" / "deep" / "kept.py").write_text(hdr + "y = 2\n")
+        (root / "build").mkdir(exist_ok=True)
+        (root / "build" / "gen.py").write_text("generated, ignored, no header\n")
+        (root / "debug.log").write_text("ignored\n")
+        exp["covered"] |= {".gitignore", "newmod/util.py", "newmod/deep/kept.py"}
+        res.cell("extra:git-ignored-in-untracked-dir")
+    if recipe["global_mode"] != "dep5" and case["k"] % 2 == 0:
+        nest = root / "nest" / "inner"
+        nest.mkdir(parents=True, exist_ok=True)
+        (root / "nest" / "REUSE.toml").write_text(f'version = 1\n[[annotations]]\npath = "**"\nprecedence = "closest"\nSPDX-License-Identifier = "{lid}"\n')
+        (nest / "REUSE.toml").write_text('version = 1\n[[annotations]]\npath = "**"\nprecedence = "closest"\nSPDX-FileCopyrightText = "2003 Inner Holder"\n')
+        (nest / "f.py").write_text("# SPDX-FileCopyrightText: 2005 Own\nf = 1\n")
+        (nest / "g.py").write_text(f"# SPDX-License-Identifier: {lid}\ng = 1\n")
+        (nest / "h.py").write_text("h = 1\n")
+        (root / "nest" / "k.py").write_text("# SPDX-FileCopyrightText: 2005 Own\nk = 1\n")
+        exp["covered"] |= {"nest/inner/f.py", "nest/inner/g.py", "nest/inner/h.py", "nest/k.py"}
+        res.cell("extra:nested-closest-split")
+
+
 def run_case(case, ctx):
     res = Res()
     recipe = make_recipe(case, ctx)
@@ -103,6 +138,7 @@ def run_case(case, ctx):
     try:
         unreadable = trees.build(recipe, root, ctx.state["styles"])
         exp = trees.spec_expect(recipe)
+        add_extras(case, recipe, root, exp, res)
         FS.fail_open = {p: eacces for p in unreadable}
         FS.begin()
         try:
